@@ -24,7 +24,8 @@ ASSUMPTIONS = ["the branch rand:wide_sketch_Q1 (X*Q2 wider than tall) is watched
 SHARDS = {"quick": 8, "thorough": 16}
 DECIDING = ["shapes", "U_orthonormal", "V_orthonormal", "s_sorted_nonneg", "s_interlacing", "error_ge_optimum", "error_le_normA",
             "exact_on_low_rank", "seed_reproducible"]
-MUST_REACH = ["rand:wide_sketch_Q2", "rand:wide_sketch_final", "pass:odd", "pass:even",
+# (the clauses are also judged on a call that follows an in-place update of the same array object: site "<routine>:after_inplace_update")
+MUST_REACH = ["history:inplace_update_then_call", "rand:wide_sketch_Q2", "rand:wide_sketch_final", "pass:odd", "pass:even",
               "regime:R+P<min", "regime:R+P>min", "regime:R+P>max", "rankclass:full", "rankclass:eqR", "rankclass:ltR"]
 
 C = 1e3
@@ -173,9 +174,22 @@ def run_case(spec, ctx, R):
     nrm = refq.fro(A)
     f = getattr(R.qsvd, routine)
     first = None
-    for k in range(spec["nseeds"]):
+    for k in range(spec["nseeds"] + 1):
         sd = (spec["seed"] * 1000003 + spec["idx"] * 101 + k) % (2 ** 31)
         site = f"{routine}"
+        if k == spec["nseeds"]:
+            # history: the caller updates the SAME array object in place (scaled copy of other data with the same spectrum class)
+            # and decomposes it again; every clause is judged against the oracle for the NEW contents
+            if not A.flags.writeable:
+                break
+            c_new = 1e-3 if spec["idx"] % 2 else 37.0
+            B_new, _, _ = refq.with_singular_values(rng, m, n, svals)
+            A[...] = B_new * c_new
+            svals = svals * c_new
+            s_or = embed.svals(A)
+            nrm = refq.fro(A)
+            site = f"{routine}:after_inplace_update"
+            ctx.hit("history:inplace_update_then_call")
         mult_tags, relgap = _spectrum_tags(svals, Rk)
         tags_base = [f"regime:{'narrow' if Rk + P <= N else 'wide'}"] + mult_tags
         if r < Rk:
@@ -235,8 +249,10 @@ def run_case(spec, ctx, R):
         if r <= Rk:
             ctx.check("exact_on_low_rank", err, eb, site=site, tags=gtags(err, eb), detail={**det, "err": err})
         if k == 0:
-            first = (sd, refq.fa(U).copy(), s.copy(), refq.fa(V).copy())
+            first = (sd, refq.fa(U).copy(), s.copy(), refq.fa(V).copy(), refq.fa(A).copy())
     if first is not None:
+        A[...] = refq.qa(first[4])
+        first = first[:4]
         sd, U0, s0, V0 = first
         np.random.seed(sd)
         try:
